@@ -30,6 +30,8 @@ def _run_job(args):
             return fn(sx, **case)
         from . import core as _core
         _core.Ctx.LOGIC[0] = opts.get('logic')
+        if tier == 'thorough' or os.environ.get('VERIF_CROSSCHECK'):
+            engine.EXPORT['dir'] = os.path.join(ROOT, 'smt_export', pid)
         st = engine.explore(h, tier=tier, timeout_ms=opts.get('timeout_ms', 30000),
                             max_paths=opts.get('max_paths', 20000), budget_s=opts.get('budget_s', 900),
                             twin=opts.get('twin', 1))
@@ -101,10 +103,20 @@ def run_property(pid, tier='quick', seed=0, procs=None, only=None):
         with ctx.Pool(min(procs, len(args)), maxtasksperchild=8) as pool:
             for r in pool.imap_unordered(_run_job, args, chunksize=1):
                 results.append(r)
-    return finish(pid, mod, tier, seed, results, time.time() - t0)
+    cross = None
+    xdir = os.path.join(ROOT, 'smt_export', pid)
+    if (tier == 'thorough' or os.environ.get('VERIF_CROSSCHECK')) and os.path.isdir(xdir):
+        import subprocess, shutil
+        try:
+            p = subprocess.run([sys.executable, os.path.join(ROOT, 'tools', 'crosscheck.py'), xdir, '200'], capture_output=True, text=True, timeout=3000)
+            cross = json.loads(p.stdout.strip().splitlines()[-1])
+        except Exception as e:  # noqa: BLE001
+            cross = dict(error=str(e)[:200])
+        shutil.rmtree(xdir, ignore_errors=True)
+    return finish(pid, mod, tier, seed, results, time.time() - t0, cross)
 
 
-def finish(pid, mod, tier, seed, results, wall):
+def finish(pid, mod, tier, seed, results, wall, cross=None):
     known = load_known()
     tot = dict(paths=0, cut=0, infeasible=0, queries=0, solver_s=0.0, obligations=0, discharged=0,
                assumes=0, forks=0, twin_ok=0, real_checked=0, nontrivial=0)
@@ -175,7 +187,7 @@ def finish(pid, mod, tier, seed, results, wall):
 
     if violations:
         code = EXIT_VIOLATION
-    elif unconfirmed or errors or unmodelled or (len(mism) > max(2, tot['twin_ok'])):
+    elif unconfirmed or errors or unmodelled or (len(mism) > max(2, tot['twin_ok'])) or (cross and cross.get('disagreements')):
         code = EXIT_MACHINERY
     elif inconcl or nonexh:
         code = EXIT_INCONCLUSIVE
@@ -212,6 +224,7 @@ def finish(pid, mod, tier, seed, results, wall):
             slowest_obligations=sorted([x for r in results for x in r.get('slowest', [])], reverse=True)[:8],
             notes=notes,
             solver=f"z3 {__import__('z3').get_version_string()}",
+            cross_solver_recheck=cross if cross is not None else 'thorough tier only',
         ),
         assumptions=getattr(mod, 'ASSUMPTIONS', []) + [
             "floats are modelled as exact reals; rounding error is outside the claim (counterexamples are replayed in IEEE arithmetic on the unmodified code before being reported)",
